@@ -16,6 +16,7 @@ ENTRIES = [
     ("udp_connect_size", _UDP, r"TrackerUdp::process_connect\(.*?if \(buffer\.size_end\(\) < (\d+)\)", "N"),
     ("udp_announce_size", _UDP, r"TrackerUdp::process_announce\(.*?if \(buffer\.size_end\(\) < (\d+)\)", "N"),
     ("udp_router_peek_size", "src/tracker/udp_router.cc", r"UdpRouter::peek_transaction_id\(.*?if \(buffer\.size_end\(\) < (\d+)\)", "N"),
+    ("dht_datagram_buffer", "src/dht/dht_server.cc", r"DhtServer::event_read\(\).*?char buffer\[(\d+)\];", "N"),
     ("available_list_default_max", "src/download/available_list.h", r"m_maxSize\{(\d+)\}", "N"),
     ("default_min_interval", _TS, r"default_min_interval\s*=\s*([0-9s *]+);", "Z", _secs),
     ("min_min_interval", _TS, r"\bmin_min_interval\s*=\s*([0-9s *]+);", "Z", _secs),
